@@ -22,10 +22,11 @@ const (
 	Decreases
 	Modifies
 	LoopModifies
+	Input
 )
 
 func (k ClauseKind) String() string {
-	return [...]string{"requires", "ensures", "invariant", "decreases", "modifies", "loop-modifies"}[k]
+	return [...]string{"requires", "ensures", "invariant", "decreases", "modifies", "loop-modifies", "input"}[k]
 }
 
 type Clause struct {
@@ -76,6 +77,8 @@ func expandMacros(s string, macros map[string]string) string {
 	return s
 }
 
+var inputArrRe = regexp.MustCompile(`^([A-Za-z0-9_.]+)\[(\d+)\]$`)
+var identI = regexp.MustCompile(`\bi\b`)
 var labelRe = regexp.MustCompile(`^\[([A-Za-z0-9_.\-]+)\]\s*`)
 var tagRe = regexp.MustCompile(`^\{([A-Za-z0-9 ,]+)\}\s*`)
 
@@ -180,6 +183,20 @@ func Parse(file, text string) ([]*Block, error) {
 			mk(Ensures, 0, rest)
 		case "modifies":
 			mk(Modifies, 0, rest)
+		case "input":
+			// replay input: "input name expr" or "input name[K] expr-over-i" (K copies, i = 0..K-1)
+			kv := strings.SplitN(rest, " ", 2)
+			if len(kv) != 2 {
+				return nil, fmt.Errorf("%s:%d: malformed input directive", file, i+1)
+			}
+			if m := inputArrRe.FindStringSubmatch(kv[0]); m != nil {
+				k, _ := strconv.Atoi(m[2])
+				for j := 0; j < k; j++ {
+					mk(Input, 0, "["+m[1]+"."+strconv.Itoa(j)+"] "+identI.ReplaceAllString(kv[1], strconv.Itoa(j)))
+				}
+			} else {
+				mk(Input, 0, "["+kv[0]+"] "+kv[1])
+			}
 		case "loop":
 			f := strings.SplitN(rest, " ", 3)
 			if len(f) < 3 {
